@@ -10,6 +10,18 @@ CHECKS = {
         text="Bounded symbolic verification: all 18 backend functions (Numba py_func, NumPy fallbacks, CUDA host wrapper + kernel through a one-thread-per-index launcher) are executed on symbolic records, windows and analysis angle and the solver shows each of the five statistics equal to the directly evaluated windowed DFT for every input within the stated shapes (quick: L<=4, K<=2; thorough: L<=8, K<=3). Unit tests compare |X|^2 on one record and never run the CUDA code or look at Im{XY}.",
         note="Reals stand for binary64 (rounding budget outside the claim); numba/LLVM/PTX code generation trusted (py_func semantics encoded, counterexamples replayed on the compiled kernels and numba's CUDA simulator); np.linalg.qr replaced by exact Gram-Schmidt; shapes beyond the bounds not covered.",
         ref="DESIGN.md section 4 C01"),
+    "C06": dict(
+        text="Bounded symbolic verification: the real auto kernels are executed on x[n]=A cos(w0 n+phi) with symbolic amplitude, phase, frequency and an arbitrary real window, and the solver shows XX=|A/2(e^{i phi}S1+e^{-i phi}W(2w0))|^2 for every such input (hence ps=A^2/2 exactly when the image term vanishes, any L and fractional bin); the scaling laws in c are shown on all 18 kernels and, with the law in the sampling rate a, on SpectrumResult for a generic bin; ENBW=fs*S2/S12. Tests check ENBW>0 only.",
+        note="Reals for binary64; L<=4 (quick) / 6 (thorough), K<=2; the size of the Kaiser image term is C12's subject; scheduler homogeneity in fs is C03's.",
+        ref="DESIGN.md section 4 C06"),
+    "C07": dict(
+        text="Bounded symbolic verification through all three backends: y=g*x gives Re XY=g*XX, Im XY=0, YY=g^2 XX (hence Hxy=g, coh=1 via the SpectrumResult obligations on a generic bin); a circularly delayed channel analysed at ANY L-th root of unity gives conj(XY)=XX*exp(-i*omega*d) exactly, i.e. phase -omega*d -- the sign of the whole chain kernel->XY->Hxy. Tests check median phase error on one record with the Numba backend only.",
+        note="Reals for binary64; gain L<=4,K<=2 (quick) / L<=6,K<=3; delay N=L<=4 (quick) / 6, all d<L, orders -1,0; the d/L edge effect of a linear delay is outside; code generation trusted.",
+        ref="DESIGN.md section 4 C07"),
+    "C08": dict(
+        text="Bounded symbolic verification: for the 12 detrending functions, adding a polynomial of degree <=p with symbolic coefficients (per channel, on absolute indices) leaves all five statistics unchanged for every record/window/frequency, for L from 1 (L<=p included); a degree p+1 term (and a constant for order -1) provably can change them (satisfiable witness, each channel separately). The double-precision basis is compared with the exact projector to 1e-12.",
+        note="Reals for binary64 ('up to rounding' is the concrete 1e-12 comparison); L<=5,K<=2 (quick) / L<=8,K<=3; np.linalg.qr replaced by exact Gram-Schmidt; order->kernel dispatch in analysis.py is C05's.",
+        ref="DESIGN.md section 4 C08"),
     "C09": dict(
         text="Bounded symbolic verification of the coherence/cross-spectrum identities: SpectrumResult.__getattr__ is executed on one generic bin of symbolic statistics (zero channels included) and the solver shows coh in [0,1], |Gxy|^2<=Gxx*Gyy, GyyCx+GyyRx=Gyy, GyySx=Gyy(1-coh) and the definedness of every guarded division; the 18 kernels are executed on symbolic data to show swap symmetry, auto-in-pair equality, coh=1 for K=1 and y=g*x, and Cauchy-Schwarz (K=2 direct, K=3 via the Lagrange identity in the thorough tier). Tests check none of these identities.",
         note="Reals for binary64; kernel shapes L<=3,K<=2 (quick), L<=4,K<=3 (thorough); result-level obligations assume the Cauchy-Schwarz fact that the kernel-level obligations establish; numba/CUDA code generation trusted.",
